@@ -169,4 +169,11 @@ def _eigh(a, b, dim):
       return scipy.linalg.eigh(a, b)
     except np.linalg.LinAlgError:
       pass
-  return scipy.linalg.eig(a, b)
+  vals, vecs = scipy.linalg.eig(a, b)
+  # eig scales the eigenvectors to unit Euclidean norm; eigsh and eigh return
+  # them b-orthonormal (v^T b v = 1): use the same scaling on this path
+  vals, vecs = vals.real, vecs.real
+  scale = np.einsum('ji,jk,ki->i', vecs, b, vecs)
+  ok = scale > 0
+  vecs[:, ok] /= np.sqrt(scale[ok])
+  return vals, vecs
